@@ -12,7 +12,7 @@ GEN = os.path.join(SPEC, "Gen_Stream.tla")
 GENC = os.path.join(SPEC, "Gen_Stream.cfg")
 TD = os.path.join(SPEC, "Trace_Decode.tla")
 TDC = os.path.join(SPEC, "Trace_Decode.cfg")
-APIS = ["byte-le", "byte-be", "sample", "iter", "channel", "stream", "verify", "frameiter", "seektable", "path"]
+APIS = ["byte-le", "byte-be", "byte-wave", "sample", "iter", "channel", "stream", "verify", "frameiter", "seektable", "path"]
 # C04 only: seeking readers over untrusted bytes (C03 judges data, and seeks on valid files are C06's)
 SEEK_APIS = ["seek-sample", "seek-byte", "seek-channel"]
 
@@ -27,6 +27,8 @@ class Incident(int):
 
     @property
     def what(self):
+        if self.kind == "crash":
+            return "ended the process: " + self.detail
         return "missed its deadline" if self.kind == "hang" else "asked for a single allocation of %s bytes" % self.detail
 
 
@@ -84,6 +86,19 @@ def decode_items(wd, items, tag, profile, apis, do_struct=False, log_data=True, 
                 hung.append(Incident(int(o.group(1)), "oom", o.group(2)))
             elif p.returncode == 3 and m:
                 hung.append(Incident(int(m.group(1)), "hang"))
+            if p.returncode < 0:
+                # the driver process was killed by a signal (stack overflow aborts, segmentation faults): the item being decoded is the
+                # last one whose "item" event reached the trace (it is flushed before the item's first call) - data about the code
+                last = None
+                with open(tp) as f:
+                    for l_ in f:
+                        if l_.startswith('{"') and '"ev":"item"' in l_.replace(" ", ""):
+                            last = json.loads(l_)["id"]
+                if last is not None and last not in [int(h) for h in hung]:
+                    hung.append(Incident(int(last), "crash", "driver killed by signal %d: %s" % (-p.returncode, p.stderr.strip().splitlines()[-1][:120] if p.stderr.strip() else "")))
+                    os.rename(tp, tp + ".part%d" % len(hung))
+                    job["skip_upto"] = int(last)
+                    continue
             if p.returncode in (3, 4) and m:
                 # keep what was recorded and continue after the item that hung
                 os.rename(tp, tp + ".part%d" % len(hung))
@@ -364,6 +379,14 @@ def run_c04(pid):
                 bb += [0x83] + list(len(body).to_bytes(3, "big")) + body + list(b[42:])
                 nid += 1
                 items.append({"id": nid, "bytes": bb, "bps": 16, "metaLen": 42 + 4 + len(body), "valid": False, "class": "hostile-seekpoints"})
+    # long runs of false syncs (a sync code followed by bytes that are no frame header) in front of a real frame: resynchronising must
+    # not cost stack or memory per false sync
+    for g in sg[:1]:
+        b = g["bytes"]
+        for pat, n_ in (([0xFF, 0xF8, 0x00], 150000), ([0xFF, 0xF9, 0x00, 0x00], 80000), ([0xFF, 0xF8, 0xFF, 0xF9, 0x01], 60000)):
+            nid += 1
+            items.append({"id": nid, "bytes": list(b[:g["metaLen"]]) + pat * n_ + list(b[g["metaLen"]:]), "bps": 16, "metaLen": g["metaLen"], "valid": False,
+                          "class": "false-sync-run"})
     items.sort(key=lambda x: x["id"])
     by_id = {it["id"]: it for it in items}
     classes = {}
